@@ -99,6 +99,11 @@ func sanitizersForAttributeValue(c context) ([]string, error) {
 	// These attribute values will later be HTML-unescaped by the HTML parser in the browser.
 	ret = append(ret, sanitizeHTMLFuncName)
 	sanitizer := sc0.sanitizerName()
+	if sanitizer == "" {
+		// No type-specific sanitizer runs before the HTML escaper, which would therefore see (and
+		// pass through unescaped) safehtml.HTML values. Attribute values must always be escaped.
+		sanitizer = evalArgsFuncName
+	}
 	if !sc0.isURLorTrustedResourceURL() {
 		return reverse(appendIfNotEmpty(ret, sanitizer)), nil
 	}
